@@ -118,7 +118,7 @@ CHECKS = {
          "witness version is committed by the script; with the C11 codec theorems this makes address <-> script mutually inverse. The model (with "
          "the generated network table) is compared with Output(address=...), Address objects, Transaction.add_output, Output(lock_script=...).address "
          "on every network, both encodings, versions 0..16, program lengths 2..40, payloads that look like hex text or whitespace, and every address "
-         "is also offered to other networks (must be refused unless the library's own table cannot distinguish them). The generic encoders and converters (pubkeyhash_to_addr, addr_convert in both directions and across witness versions) are compared with independent reference encoders. Found and fixed: F15, F31b, F31c, F60 (addr_convert dropped the witness version)."),
+         "is also offered to other networks (must be refused unless the library's own table cannot distinguish them). The generic encoders and converters (pubkeyhash_to_addr, addr_convert in both directions and across witness versions) are compared with independent reference encoders. Found and fixed: F15, F31b, F31c, F60 (addr_convert dropped the witness version), F77 (nested segwit Address objects paid an unspendable script), F78 (strict=False emptied the script), F79 / F80 (objects and Bech32 strings of another network accepted). Address objects made from public keys, objects of other networks and Address.parse with a wrong network are part of every run."),
    design_ref='DESIGN.md §5 C05',
    note=COMMON_NOTE + "For outputs built from a bare public key or hash the script type is the library's default; the check demands only that the script commits to that key's hash. "
         "Witness programs without a standard type name (v>=2, v1 with non-32-byte program) are compared by address only."),
